@@ -269,8 +269,12 @@ def load(config="lib"):
     F.inlined = {}
     F.desugared = {}
     F.forwarded = {}
+    F.unrolled = {}
     if not os.environ.get("ESPADA_NO_INLINE"):
         from . import desugar, inline
+        if not os.environ.get("ESPADA_NO_UNROLL"):
+            from . import unroll
+            F.unrolled = unroll.normalise(F)
         # desugaring exposes direct closure calls for the inliner; splicing a closure can expose a further pipeline or an
         # adaptor-sourced loop (the iterator a flat_map closure returns): alternate until nothing changes (at most 3 rounds)
         for _round in range(3):
